@@ -246,10 +246,29 @@ fn grammar_packets(rng: &mut Rng) -> Vec<Vec<u8>> {
             }
         }
     }
+    // long option lists: k well-formed pairs (unknown, empty-named or recognised) and then a well-formed or malformed tail -
+    // a parser that stops counting after some number of pairs must still validate and honour the rest
+    for op in [wire::OP_RRQ, wire::OP_WRQ, wire::OP_OACK] {
+        for k in (0..=20).chain([24, 31, 32, 33, 40, 63, 64, 65, 100]) {
+            let mut base = if op == wire::OP_OACK { op.to_be_bytes().to_vec() } else { wire::enc_request(op, b"f", b"octet", &[]) };
+            for j in 0..k {
+                match j % 3 {
+                    0 => base.extend_from_slice(format!("u{j}\x00{j}\x00").as_bytes()),
+                    1 => base.extend_from_slice(b"x\0\0"),
+                    _ => base.extend_from_slice(b"tsize\x000\0"),
+                }
+            }
+            for tail in [&b""[..], b"blksize\x001024\0", b"blksize\0abc\0", b"windowsize\x007", b"blksize\0", b"junk", b"timeout\0\xff\xfe\0", b"\xc3\x28\0v\0", b"windowsize\x0065536\0", b"name-without-value\0"] {
+                let mut p = base.clone();
+                p.extend_from_slice(tail);
+                v.push(p);
+            }
+        }
+    }
     // text that a "harmless" normalisation (trimming, line-break / separator clean-up, BOM removal) would touch: one and
     // two decorations before, behind and around a core, in every string field - a normalisation that is not idempotent
     // breaks decode(encode(decode(x))) == decode(x)
-    let deco = ["\n", "\r\n", "\r", " ", "\t", "/", "\\", ".", "\u{feff}", "\u{a0}", "\""];
+    let deco = ["\n", "\r\n", "\r", " ", "\t", "/", "\\", ".", "\u{feff}", "\u{a0}", "\"", "\u{fffd}", "\u{1}", "\u{7f}", "\u{2028}"];
     for core in ["disk full", ""] {
         for d1 in deco {
             for d2 in deco {
@@ -450,6 +469,11 @@ fn gen_packet(r: &mut Rng) -> (Packet, RPacket) {
             // long string with multi-byte characters at a random alignment
             let ch = *r.pick(&["\u{e9}", "\u{6587}", "\u{1F600}"]);
             format!("{}{}", "a".repeat(r.below(8) as usize), ch.repeat(r.range(40, 260) as usize))
+        } else if r.chance(120) {
+            // characters that lossy conversions, sanitisers and trimmers treat specially, anywhere in the string
+            let special = ['\u{fffd}', '\u{feff}', '\u{1}', '\u{7f}', '\u{80}', '\u{a0}', '\u{2028}', '\u{fffe}', '\u{ffff}', '\u{10ffff}', '\u{d7ff}', '\u{e000}', '\n', '\r', '\t', ' ', '"', '\\', '/'];
+            let n = r.range(1, 12);
+            (0..n).map(|_| if r.chance(500) { *r.pick(&special) } else { (b'a' + r.below(26) as u8) as char }).collect()
         } else if r.chance(150) {
             // random printable / multi-byte string without NUL
             let n = r.range(0, 20);
@@ -461,7 +485,7 @@ fn gen_packet(r: &mut Rng) -> (Packet, RPacket) {
     let kinds = [OptionType::BlockSize, OptionType::TransferSize, OptionType::Timeout, OptionType::Windowsize];
     let vals: [u64; 9] = [0, 1, 9, 10, 65464, 1 << 32, 1 << 63, u64::MAX, 12345];
     let gen_opts = |r: &mut Rng| -> Vec<TransferOption> {
-        let n = r.range(0, 6);
+        let n = if r.chance(40) { r.range(15, 70) } else { r.range(0, 6) };
         (0..n)
             .map(|_| TransferOption { option: *r.pick(&kinds), value: if r.chance(200) { r.next() as usize } else { *r.pick(&vals) as usize } })
             .collect()
